@@ -21,11 +21,6 @@ def driver_binary():
     return os.environ.get("VERIF_DIDSTORE_BINARY") or vlib.build_driver("didstore")
 
 
-def defects_of(cfg):
-    txt = open(os.path.join(vlib.SPEC, "cfg", cfg)).read()
-    return re.findall(r'"([\w-]+)"', re.search(r"Defects = \{(.*?)\}", txt).group(1))
-
-
 def tlc_ok(cfg, coverage, what):
     m = vlib.tlc("MCDidStore", cfg, workers=WORKERS, timeout=2400, coverage=coverage)
     if m.error:
@@ -291,7 +286,7 @@ def expected(df, st, t, nilsafe=True):
     return "rejected"
 
 
-def amb_scripts(states, prefix, defects, carriers, n_states, n_defect_probes, rnd, nilsafe=True):
+def amb_scripts(states, prefix, defects, carriers, n_states, n_defect_probes, rnd, nilsafe=True, kinds=None):
     states = sorted(states, key=lambda s: json.dumps(s["path"], sort_keys=True))
     if n_states and len(states) > n_states:
         # keep the shortest and the longest paths, sample the rest
@@ -299,15 +294,25 @@ def amb_scripts(states, prefix, defects, carriers, n_states, n_defect_probes, rn
         keep = states[:10] + states[-10:]
         rest = states[10:-10]
         states = keep + rnd.sample(rest, n_states - len(keep))
-    pairs = [(c, df) for c in carriers for df in defects]
+    defects = sorted(defects)
+    kinds = sorted(kinds or [])
+    cursor = 0
     scripts = []
     for i, st in enumerate(states):
         probes = [dict(t=t, df="none", res=v, auth=st["authorised"][t]) for t, v in sorted(st["verdicts"].items())]
-        # defect probes: round robin over all (carrier, defect class) pairs + a random few
-        chosen = [pairs[(i * n_defect_probes + j) % len(pairs)] for j in range(n_defect_probes)] if pairs else []
-        for c, df in chosen:
-            if c in st["verdicts"]:
-                probes.append(dict(t=c, df=df, res=expected(df, st, c, nilsafe), auth=st["authorised"][c]))
+        # defect probes: the classes in rotation; carried by a transaction that would be accepted in this state with its
+        # well-formed document (then the document alone decides), every fifth one by any carrier
+        present = [c for c in carriers if c in st["verdicts"]]
+        eff = [c for c in present if st["verdicts"][c] == "accepted"] or present
+        for j in range(n_defect_probes if present and defects else 0):
+            df = defects[cursor % len(defects)]
+            pool = present if cursor % 5 == 4 else eff
+            c = pool[(cursor // len(defects) + j) % len(pool)]
+            cursor += 1
+            probes.append(dict(t=c, df=df, res=expected(df, st, c, nilsafe), auth=st["authorised"][c]))
+        # one well-formed document with a verification method of another kind (no prediction by the model)
+        if present and kinds:
+            probes.append(dict(t=eff[i % len(eff)], df="ok@" + kinds[i % len(kinds)], res="", auth=st["authorised"][eff[i % len(eff)]]))
         rnd.shuffle(probes)
         scripts.append(dict(id="%s%05d" % (prefix, i), steps=st["path"], probes=probes))
     return scripts
@@ -368,8 +373,8 @@ def run_amb(prop, tier, seed, rep, t0):
     n_states_total = 0
     base_inputs = {}
     plans = [("DidStore.amb.gen%s.cfg" % ("" if quick else ".thorough"), "m", ["A", "B", "C"], (["cA", "uA1", "uAx"] if quick else ["cA", "uA1", "uAx", "uAbB"]),
-              (70 if quick else 600), (6 if quick else 8)),
-             ("DidStore.chain.gen.cfg", "c", ["D1", "D2", "D3", "D4", "D5", "D6", "D7"], ["h1", "g2"], (30 if quick else 0), 2)]
+              (60 if quick else 600), (6 if quick else 8)),
+             ("DidStore.chain.gen.cfg", "c", ["D1", "D2", "D3", "D4", "D5", "D6", "D7"], ["h1", "g2"], (24 if quick else 0), 2)]
     tables = None
     for cfg, prefix, dids, carriers, n_states, n_def in plans:
         # workers=1: the witness path printed for a state is then a function of the model alone (reproducible runs)
@@ -380,7 +385,7 @@ def run_amb(prop, tier, seed, rep, t0):
         sts = [s for s in sts if isinstance(s, dict) and "path" in s]
         n_states_total += len(sts)
         models.append(model_entry(cfg, g, note="one witness path per distinct state + verdict table"))
-        scripts = amb_scripts(sts, prefix, defects_of(cfg), carriers, n_states, n_def, rnd, nil_safe(cfg))
+        scripts = amb_scripts(sts, prefix, tables["Defects"], carriers, n_states, n_def, rnd, nil_safe(cfg), tables.get("VMKinds"))
         base_input = dict(mode="ambassador", tables=tables, k=1, dids=dids)
         base_inputs[prefix] = base_input
         rs = vlib.run_driver_parallel(binary, dict(base_input, scripts=scripts), shards=SHARDS, timeout=1500)
